@@ -304,7 +304,9 @@ fn patterns(k: u64) -> Vec<u64> {
 /// byte-structured values (see `run_endian`)
 fn structured(rng: &mut Rng, k: u64) -> u64 {
     let b = |rng: &mut Rng| *rng.pick(&[0u64, 0, 1, 0x7f, 0x80, 0xff, 0xa5]) | if rng.chance(1, 3) { rng.below(256) } else { 0 };
-    let bytes: Vec<u64> = match rng.below(7) {
+    let bytes: Vec<u64> = match rng.below(9) {
+        7 => { let x = 1 + rng.below(255); let z = k / 2; let low = rng.chance(1, 2); (0..k).map(|i| if (i < z) == low { x } else { 0 }).collect() }   // one byte repeated over half of the word, zero elsewhere
+        8 => { let x = 1 + rng.below(255); let z = 1 + rng.below(k - 1); (0..k).map(|i| if i < z { x } else { 0 }).collect() }                   // a run of one byte, then zeros
         0 => { let h: Vec<u64> = (0..k / 2).map(|_| b(rng)).collect(); h.iter().chain(h.iter()).cloned().collect() }            // identical halves
         1 => { let x = b(rng); let y = b(rng); (0..k).map(|i| if i % 2 == 0 { x } else { y }).collect() }                         // repeated pairs
         2 => { let h: Vec<u64> = (0..k / 2).map(|_| b(rng)).collect(); h.iter().chain(h.iter().rev()).cloned().collect() }      // palindrome
